@@ -135,3 +135,104 @@ def gm_remove_edge(m, r, a, b):
     i = _find_edge(m, g, a, b)
     if i < 0: return NONE()
     return SOME(g.edges.pop(i)[2])
+
+
+# ---------------------------------------------------------------------------------------------- petgraph::graph::Graph
+class PGraph:
+    """Graph<N, E, Ty, Ix>: node weights by index, edges [a, b, weight] (a, b concrete indices) in insertion order"""
+    __slots__ = ("nodes", "edges")
+
+    def __init__(self):
+        self.nodes, self.edges = [], []
+
+    def __repr__(self):
+        return f"PGraph(n={len(self.nodes)}, e={[(a, b) for a, b, _ in self.edges]})"
+
+
+def _nix(i): return Agg("NodeIndex", None, [i])
+def _eix(i): return Agg("EdgeIndex", None, [i])
+
+
+def _ix(m, v):
+    v = deref(v)
+    i = v.fields[0] if isinstance(v, Agg) else v
+    if is_sym(i): raise Unsupported("symbolic petgraph index")
+    return i
+
+
+@model("Graph::new", "Graph::with_capacity", "<Graph as Default>::default", "petgraph::Graph::new", "petgraph::graph::Graph::new")
+def pg_new(m, *a): return PGraph()
+
+
+@model("Graph::add_node")
+def pg_add_node(m, r, w):
+    g = deref(r)
+    g.nodes.append(w)
+    return _nix(len(g.nodes) - 1)
+
+
+@model("Graph::add_edge")
+def pg_add_edge(m, r, a, b, w):
+    g = deref(r)
+    g.edges.append([_ix(m, a), _ix(m, b), w])
+    return _eix(len(g.edges) - 1)
+
+
+M["Graph::node_count"] = lambda m, r: len(deref(r).nodes)
+M["Graph::edge_count"] = lambda m, r: len(deref(r).edges)
+
+
+@model("Graph::externals")
+def pg_externals(m, r, d):
+    g = deref(r)
+    if _is_outgoing(d): out = [i for i in range(len(g.nodes)) if not any(e[0] == i for e in g.edges)]
+    else: out = [i for i in range(len(g.nodes)) if not any(e[1] == i for e in g.edges)]
+    return m.world.list_iter([_nix(i) for i in out])
+
+
+@model("Graph::neighbors_directed")
+def pg_neighbors_directed(m, r, n, d):
+    g, i = deref(r), _ix(m, n)
+    # petgraph walks the per-node edge list from the most recently added edge
+    if _is_outgoing(d): out = [e[1] for e in reversed(g.edges) if e[0] == i]
+    else: out = [e[0] for e in reversed(g.edges) if e[1] == i]
+    return m.world.list_iter([_nix(j) for j in out])
+
+
+@model("Graph::neighbors")
+def pg_neighbors(m, r, n):
+    g, i = deref(r), _ix(m, n)
+    return m.world.list_iter([_nix(e[1]) for e in reversed(g.edges) if e[0] == i])
+
+
+@model("Graph::node_weight")
+def pg_node_weight(m, r, n):
+    g, i = deref(r), _ix(m, n)
+    return SOME(Ref(g.nodes, i)) if 0 <= i < len(g.nodes) else NONE()
+
+
+def pg_index(m, r, n):
+    g, i = deref(r), _ix(m, n)
+    if not 0 <= i < len(g.nodes): raise Panic("Graph::index: node index out of bounds")
+    return Ref(g.nodes, i)
+
+
+M["<Graph as Index<NodeIndex>>::index"] = pg_index
+
+
+@model("DfsSpace::new", "petgraph::algo::DfsSpace::new")
+def dfs_space_new(m, g): return Agg("DfsSpace", None, [])
+
+
+@model("has_path_connecting", "petgraph::algo::has_path_connecting")
+def pg_has_path(m, r, a, b, space=None):
+    g = deref(r)
+    a, b = _ix(m, a), _ix(m, b)
+    seen, todo = {a}, [a]
+    while todo:
+        x = todo.pop()
+        if x == b: return True
+        for e in g.edges:
+            if e[0] == x and e[1] not in seen:
+                seen.add(e[1]); todo.append(e[1])
+    return False
